@@ -39,6 +39,20 @@ for cnt in (16, 32, 48, 64):
                         unwind=cnt + 20, spec_unwind=cnt + 20, search=20000, split=True, timeout=600,
                         fn=["beltBDEStart", "beltBDEStepE", "beltBDEStepD", "beltBDE_keep", "beltBlockMulC", "beltKeyExpand2"],
                         note="beltBDEEncr / beltBDEDecr == the same spec only in the native search of this harness (N)"))
+# belt-wbl (base and optimised paths) and belt-sde against the standard over the uninterpreted block function (round 3)
+WBL = ["src/crypto/belt/belt_wbl.c", "src/crypto/belt/belt_sde.c"] + BELT
+for mode, lens in (("wbl", (32, 33, 47, 48, 49, 64, 65, 80, 96)), ("sde", (32, 48, 64, 80))):
+    for cnt in lens:
+        for kl in (16, 24, 32):
+            if kl != 32 and cnt != 48:
+                continue
+            GROUPS.append(G("modes.%s.cnt%d.k%d" % (mode, cnt, kl), "harness/C01/modes.c", "h_" + mode, WBL + KEYX,
+                            stubs=["stubs/belt_uf.c"], strip=UF, defs=["CNT=%d" % cnt, "KLEN=%d" % kl], level="B",
+                            bound="wide block of %d octets, key %d octets; key/IV/contents symbolic; block function uninterpreted" % (cnt, kl),
+                            unwind=cnt + 20, spec_unwind=cnt + 20, search=20000, split=True, timeout=900,
+                            tier="thorough" if (mode, cnt) in (("wbl", 96), ("sde", 80), ("sde", 32)) else "quick",
+                            fn=(["beltWBLStart", "beltWBLStepE", "beltWBLStepD", "beltWBLStepEBase", "beltWBLStepEOpt", "beltWBLStepDBase", "beltWBLStepDOpt", "beltWBL_keep"]
+                                + (["beltSDEStart", "beltSDEStepE", "beltSDEStepD", "beltSDE_keep"] if mode == "sde" else []))))
 BLK = ["src/core/mem.c", "src/core/util.c", "src/core/u32.c", "src/core/u64.c", "src/core/u16.c", "src/core/word.c"]
 def blk(name, entry, backend, fn, note, **kw):
     return G("block." + name, "harness/C01/block.c", entry, BLK, level=kw.pop("level", "P"), backend=backend, search=100000,
